@@ -105,6 +105,7 @@ class _Idx:
         return 'negative-entries-of(%s)' % self.name
 
     def __add__(self, other):
+        self.added = getattr(self, 'added', []) + [other]        # what the normalisation adds to the negative entries
         return self
 
 
@@ -186,9 +187,15 @@ def rls_obligations():
             exec(code, ns)
             RLS = ns['RestrictedLinearSystem']
             N = sp.Symbol('N', integer=True, positive=True)
-            A = Lin.named('A', shape=(N, N))
+            # with elim_rows the system may be rectangular (Petrov-Galerkin): M equations, N dofs
+            M = sp.Symbol('M', integer=True, positive=True) if with_rows else N
+            A = Lin.named('A', shape=(M, N))
             b, v, u = Vec.atom('b'), Vec.atom('v'), Vec.atom('u')
-            L = RLS(A, b, (_Idx('idx'), v), elim_rows=(_Idx('rows') if with_rows else None))
+            idx_in = _Idx('idx')
+            L = RLS(A, b, (idx_in, v), elim_rows=(_Idx('rows') if with_rows else None))
+            ob(tag + ':negative-indices-count-from-the-number-of-dofs', getattr(idx_in, 'added', None) == [N],
+               'numpy-style negative dof indices are normalised by adding the number of dofs (columns of A), also for a rectangular system',
+               'added %r' % (getattr(idx_in, 'added', None),))
             fv = 'v' if with_rows else ''
             Rf, Re = Lin.named('Rf', tr='RfT'), Lin.named('Re', tr='ReT')
             Rfv = Lin.named('Rf' + fv, tr='Rf' + fv + 'T')
